@@ -399,6 +399,54 @@ pub fn run(ctx: &Ctx, st: &mut Stats) {
         check(ctx, st, &c);
         st.nontrivial_key(x.to_bits() ^ hash64(t.name));
     }
+    // seeded random garbage text: lengths 1..100, ASCII and multi-byte UTF-8 mixed (error paths that slice or echo
+    // the input must not panic), pushed through every FromStr type
+    let alphabet: Vec<char> = "0123456789+-.eE _xnaif°é٤４𝟜\u{0}\t,".chars().collect();
+    let ng = ctx.quota(60_000, 3_000_000);
+    for k in 0..ng {
+        let len = r.int(1, 100) as usize;
+        let mut t = String::new();
+        for _ in 0..len {
+            t.push(*r.pick(&alphabet));
+        }
+        if k % 3 == 0 {
+            // mostly-numeric prefix followed by garbage
+            t = format!("{}{}", r.range(-200.0, 200.0), t);
+        }
+        let ty = tys[r.int(0, 3) as usize].name;
+        let c = Case { ty: ty.into(), route: "text".into(), value: None, text: Some(t) };
+        check(ctx, st, &c);
+        if k < 2 {
+            st.sample(|| json!(c));
+        }
+    }
+    st.add("random_garbage_texts", ng);
+    // the SAME text pushed through all four text routes one after the other, in a seeded order (a value accepted
+    // by a wider type must still be rejected by a narrower one: no state may leak between the routes)
+    let nx = ctx.quota(100_000, 6_000_000);
+    let text_types: Vec<&Ty> = tys.iter().filter(|t| t.from_str.is_some()).collect();
+    for _ in 0..nx {
+        let x = match r.int(0, 5) {
+            0 => r.range(-13.0, 13.0),
+            1 => r.range(-100.0, 100.0),
+            2 => r.range(-200.0, 200.0),
+            3 => r.range(-500.0, 9000.0),
+            4 => r.int(-200, 9000) as f64,
+            _ => r.range(-9000.0, 9000.0),
+        };
+        let mut order: Vec<usize> = (0..text_types.len()).collect();
+        for i in (1..order.len()).rev() {
+            order.swap(i, r.int(0, i as i64) as usize);
+        }
+        let s = format!("{x:?}");
+        for i in order {
+            let t = text_types[i];
+            let c = Case { ty: t.name.into(), route: "text".into(), value: None, text: Some(s.clone()) };
+            check(ctx, st, &c);
+        }
+        st.nontrivial_key(x.to_bits() ^ 0x5555);
+    }
+    st.add("cross_type_same_text_sequences", nx);
     st.extra.insert("rule".into(), json!("per type: hostile values (both bounds +-1 ulp, +-0, subnormals, NaN payloads, +-inf, huge) and seeded random values pushed through every route that exists for the type (TryFrom<f64>; FromStr on shortest round-trip and exponent spellings; serde_json on float and integer spellings, judged against serde_json's own f64 reading of the same text); fixed text and JSON corpora (malformed, whitespace, hex, underscores, non-ASCII digits, nan/inf spellings, 1e999, null/string/array/bool); composite Location/Coordinates/Weather/ExtremeLatitudeMethod/Params documents with one out-of-range field; every case is non-trivial; distinct by (type, route, input) hash"));
     st.note("Pressure and Temperature have no FromStr route in the public API: for them 'the routes that exist' are TryFrom<f64> and JSON.");
 }
